@@ -53,7 +53,7 @@ var (
 		}
 		return
 	}()
-	max64  = new(big.Int).SetUint64(^uint64(0))
+	max64 = new(big.Int).SetUint64(^uint64(0))
 )
 
 func pow2(n uint) *big.Int { return new(big.Int).Lsh(big.NewInt(1), n) }
@@ -61,13 +61,13 @@ func pow2(n uint) *big.Int { return new(big.Int).Lsh(big.NewInt(1), n) }
 type qform int
 
 const (
-	formNatural qform = iota // cborx.Big: uint / nint / bignum as needed
-	formBignum               // always tag 2 / tag 3
-	formBignumWideTag        // tag 2 / tag 3 with the tag number in a 1-byte argument (d8 02 / d8 03)
-	formBignumWideTag8       // ... in an 8-byte argument (db 00..02)
-	formBignumPadded         // tag 2 / tag 3 whose byte string has leading zero bytes
-	formBignumChunked        // tag 2 / tag 3 over an indefinite-length (chunked) byte string
-	formWideInt              // uint / nint written with an 8-byte argument where it fits, else as formBignumWideTag
+	formNatural        qform = iota // cborx.Big: uint / nint / bignum as needed
+	formBignum                      // always tag 2 / tag 3
+	formBignumWideTag               // tag 2 / tag 3 with the tag number in a 1-byte argument (d8 02 / d8 03)
+	formBignumWideTag8              // ... in an 8-byte argument (db 00..02)
+	formBignumPadded                // tag 2 / tag 3 whose byte string has leading zero bytes
+	formBignumChunked               // tag 2 / tag 3 over an indefinite-length (chunked) byte string
+	formWideInt                     // uint / nint written with an 8-byte argument where it fits, else as formBignumWideTag
 	nForms
 )
 
@@ -140,7 +140,7 @@ type tcase struct {
 	family string // pair | oversized | inrange | zero | collret
 	q      *big.Int
 	form   qform
-	pos    int // 0: q in the first output, 1: in the second
+	pos    int  // 0: q in the first output, 1: in the second
 	quiet  bool // use quietPolicy
 }
 
@@ -160,7 +160,6 @@ func (t tcase) String() string {
 }
 
 func outOfRange(q *big.Int) bool { return q.Sign() < 0 || q.Cmp(max64) > 0 }
-
 
 // build returns the world and the transaction of a case plus the quantities
 // the generator put into outputs (for the oracle).
